@@ -17,7 +17,10 @@ def run(tier):
              (4, 5, 1000, [500, 1000, 2500], 20000, 7000),
              (8, 1, 1000, [500, 1500, 4000], 26000, 8000),
              # loop() not called for more than 65.536 s while a request is outstanding / between syncs
-             (8, 2, 6000, [5000, 66000], 110000, 81000)]
+             (8, 2, 6000, [5000, 66000], 110000, 81000),
+             # a sync period above 2^15 s with a long initial period: the doubling of the retry period must saturate at the
+             # sync period (uint16 arithmetic in the code), hours between calls
+             (50000, 30000, 1000, [30000000, 31000000], 400000000, 250000000)]
     if tier == 'thorough':
         confs += [(3600, 5, 1000, [500, 5000, 600000], 4200000, 1300000), (2, 1, 250, [100, 300, 1000], 7000, 2500)]
         confs = [(a, b, c, d, int(e * 1.5), int(f * 1.3)) for a, b, c, d, e, f in confs]
@@ -37,14 +40,15 @@ def run(tier):
                 steps_m, tmax_m, treplay_m = steps, tmax, treplay
             tag = 's%d-i%d-t%d-%s%s' % (sync, initial, timeout, mode, '' if preset is None else '-set%d' % preset)
             cfg = os.path.join(work, 'SCL_%s.cfg' % tag)
-            clocks.scl_cfg(cfg, sync, initial, timeout, steps_m, tmax_m, mode, preset=preset)
+            extra_ref = (0,) if ci == 5 or (ci == 0 and mode == 'distinct') else ()      # the reference clock may also report 0, the AceTime epoch itself
+            clocks.scl_cfg(cfg, sync, initial, timeout, steps_m, tmax_m, mode, preset=preset, extra_ref=extra_ref)
             r = common.run_tlc('SystemClockLoop', cfg, timeout=3000)
             common.tlc_must_pass(r, 'SystemClockLoop %s' % tag)
             st += r.distinct
             tr += r.generated
             # the same model to a shorter horizon, with every transition dumped and replayed in the real class
             cfg2 = os.path.join(work, 'SCL_%s_dump.cfg' % tag)
-            clocks.scl_cfg(cfg2, sync, initial, timeout, steps_m, treplay_m, mode, dump=True, preset=preset)
+            clocks.scl_cfg(cfg2, sync, initial, timeout, steps_m, treplay_m, mode, dump=True, preset=preset, extra_ref=extra_ref)
             r2 = common.run_tlc('SystemClockLoop', cfg2, workers=1, timeout=3000)
             common.tlc_must_pass(r2, 'SystemClockLoop %s (dump)' % tag)
             edges = [e for e in common.tlc_prints(r2.out) if isinstance(e, dict) and 'ev' in e]
@@ -53,6 +57,8 @@ def run(tier):
                 raise common.MachineryError('SystemClockLoop edge dump inconsistent: %d edges, %d generated, %d distinct' % (len(edges), r2.generated, r2.distinct))
             evs = {e['ev'] for e in edges}
             need = {'noref'} if mode == 'none' else {'send', 'valid', 'invalid', 'timeout', 'waiting', 'ok', 'wait'}
+            if min(steps_m) >= timeout:
+                need -= {'waiting'}       # every call comes after the request has timed out
             if not need <= evs:
                 raise common.MachineryError('vacuous model run %s: events never taken: %s' % (tag, need - evs))
             if mode == 'none' and max(e['to']['now'] for e in edges) < 70000:
@@ -61,7 +67,7 @@ def run(tier):
             nscripts += a
             nsteps += b
             # the same edges on the variant in which millis() is 32 bits wide, started shortly before it wraps
-            if tier == 'thorough' or ci in (0, 3, 4):
+            if tier == 'thorough' or ci in (0, 4, 5):
                 a, b = clocks.scl_replay_edges(chk, exe32, edges, (sync, initial, timeout, mode), tag + '-ul32', preset=preset, wrap32=True)
                 nscripts += a
                 nsteps += b
@@ -73,7 +79,7 @@ def run(tier):
             if mode == 'distinct' and len(chk.cov['samples']) < 3:
                 chk.sample({'config': tag, 'model_edge': next(e for e in edges if e['ev'] == 'valid')})
     chk.add(states=st, transitions=tr, traces_validated_against_impl=nscripts, model_edges_replayed=nscripts, replayed_loop_calls=nsteps,
-            configurations=len(confs) * 3 - 1,
+            configurations=len(confs) * 3 - 2,
             rule='TLC exhaustive to the horizon for each (sync, initial, timeout) x {distinct, same, none}: ValidApplied, BackupLaw, NoCorrupt, Separation, BackoffLaw, BoundedResponse, RequestCount; every transition of the shorter-horizon graph replayed in a subclass of the real SystemClockLoop (injected clockMillis, recording reference/backup clocks) comparing FSM status, retry period, request/sync timestamps, clock state (read before getNow()), backup writes, requests sent, getNow() and getLastSyncTime(); the clock set by setNow() before the first call in every other configuration; without a reference clock: schedules up to 140 s (past one wrap of the 16-bit millisecond bookkeeping), also replayed with the clock read only after the last loop() call')
     chk.assume('time moves on a lattice of step sizes per configuration; loop() is called after every step (regular polling)')
     chk.assume('32-bit millis(): a second driver is compiled against copies of SystemClock.h / SystemClockLoop.h generated from the working tree with `unsigned long` replaced by uint32_t; every edge is replayed on it from bases just below 2^32')
